@@ -305,6 +305,16 @@ def run(ctx, only_scripts=None):
     if prop == "C13" and only_scripts is None:
         rv, raw_stats = raw_frames(ctx, tier)
         violations += rv
+        import fam_e2e
+        binp = ctx.go_test_build("./cmd/thermal-recorder", "tr.test")
+        e2e_runs = fam_e2e.c13_runs(ctx, binp)
+        for v in fam_e2e.judge_c11(ctx, e2e_runs, binp):
+            if v["key"].startswith("C11:e2e-"):
+                continue
+            v["key"] = v["key"].replace("C11:settings-do-not-shape-files", "C13:end-to-end").replace("C11:", "C13:")
+            violations.append(v)
+        raw_stats["e2e_runs_with_bad_frames"] = len(e2e_runs)
+        raw_stats["e2e_bad_frames"] = sum(1 for r in e2e_runs if r["kind"] == "predict" for e in r["model_events"] if e["ev"] == "bad")
     # ---------------------------------------------------------------- 4. conformance (drift is not a verdict)
     rej, accepted = conform(ctx, trace)
     conf = dict(events_accepted=accepted, rejected_at=None)
